@@ -24,6 +24,7 @@ func init() {
 			ruleResponses(c, d)
 			ruleBatchFlagChain(c, d)
 			c.Clause("C01-D5")
+			ruleReaderErrorReplies(c)
 			ruleSendWholeMessages(c)
 			ruleBareObject(c)
 			c.Clause("C01-D6")
